@@ -712,9 +712,11 @@ fn two_point_coverage_long(ctx: &mut Ctx) {
 fn uniform_independence(ctx: &mut Ctx) {
     let n = ctx.tier.pick(200_000u64, 4_000_000);
     let mut counts_json = vec![];
-    for bits in [false, true] {
+    for flavour in 0u8..3 {
+        let bits = flavour == 1;
         for len in 1usize..=4 {
-            let name = impl_name(false, bits, false);
+            // flavour 2: a user-defined genome type that implements only the required items of the library's traits
+            let name = if flavour == 2 { "UniformXo<user-defined genome>".to_string() } else { impl_name(false, bits, false) };
             let sub = "uniform_pattern_law";
             let p1: Vec<bool> = (0..len).map(|i| i % 2 == 0).collect();
             let p2: Vec<bool> = p1.iter().map(|b| !b).collect();
@@ -723,7 +725,13 @@ fn uniform_independence(ctx: &mut Ctx) {
                 let mut rng = StdRng::seed_from_u64(derive_seed(seed, "C10", &name, salt ^ ((len as u64) << 32)));
                 for _ in 0..n {
                     let out = guarded(|| {
-                        if bits {
+                        if flavour == 2 {
+                            match recombine_custom(false, false, len, len, None, &mut rng).0 {
+                                CustomOut::Child(src) => RecOut::Child(src),
+                                CustomOut::LenErr(a, b) => RecOut::LenErr(a, b),
+                                CustomOut::Primitive(e) => RecOut::OtherErr(format!("{e:?}")),
+                            }
+                        } else if bits {
                             recombine_bits(false, false, &p1, &p2, &mut rng).0
                         } else {
                             recombine_vec(false, false, len, len, &mut rng)
@@ -746,7 +754,7 @@ fn uniform_independence(ctx: &mut Ctx) {
                 Err(f) => ctx.violation(sub, &f, json!({"impl": name, "len": len})),
                 Ok(hist) => {
                     ctx.count(sub, n);
-                    ctx.note_nontrivial(crate::fnv(&format!("uni{bits}{len}")));
+                    ctx.note_nontrivial(crate::fnv(&format!("uni{flavour}{len}")));
                     for (code, k) in hist.iter().enumerate() {
                         let c = Count { name: format!("{name} len {len} pattern {code:0len$b}"), k: *k, n, p: law };
                         counts_json.push(json!({"name": c.name, "k": c.k, "n": c.n, "p": c.p, "z": c.z()}));
